@@ -67,6 +67,9 @@ def env_dict(e: dict) -> dict:
             "extras": sorted(name_text(n) for n in e["extras"])}
 
 
+LIST_SEP = [", "]          # how `in` lists are joined; the atom replay also uses "," (both spellings are common)
+
+
 def atom_text(a: dict) -> str:
     k = a["kind"]
     if k == "ver":
@@ -75,7 +78,7 @@ def atom_text(a: dict) -> str:
             op, lit = op[:2], lit + ".*"
         return f'"{lit}" {op} {a["var"]}' if a["rev"] else f'{a["var"]} {op} "{lit}"'
     if k == "list":
-        return f'{a["var"]} {a["op"]} "{", ".join(rel_text(i) for i in a["items"])}"'
+        return f'{a["var"]} {a["op"]} "{LIST_SEP[0].join(rel_text(i) for i in a["items"])}"'
     if k == "str":
         lit = "".join(FRAG[c] for c in a["lit"])
         return f'"{lit}" {a["op"]} {a["var"]}' if a["rev"] else f'{a["var"]} {a["op"]} "{lit}"'
@@ -119,8 +122,11 @@ def _eval_chunk(args):
     for st in states:
         t = st["item"]
         ctx_name = "lock_file" if uses_lock_context(t) else "metadata"
-        for variant in ((0,) if t["k"] == "atom" else (0, 2)):
-            text = tree_text(t, variant)
+        is_list = t["k"] == "atom" and t["a"]["kind"] == "list" and len(t["a"]["items"]) > 1
+        for variant in ((0, 5) if is_list else (0,) if t["k"] == "atom" else (0, 2)):
+            LIST_SEP[0] = "," if variant == 5 else ", "          # variant 5: the list without blanks, "3.8,3.10"
+            text = tree_text(t, 0 if variant == 5 else variant)
+            LIST_SEP[0] = ", "
             try:
                 pm = PkgMarker(text)
             except Exception as e:  # noqa: BLE001
@@ -183,7 +189,7 @@ def _eval_chunk(args):
                         fails.append(("C03", f"C03:evaluate({_site(t)}):local-version:differs-from-packaging", f"{text!r} on python_full_version {full}: dep-logic {got}, packaging {ref}", {"text": text, "env": {k: str(v) for k, v in e.items()}}))
                         break
             # C11: the specifier view of python-version atoms
-            if t["k"] == "atom" and t["a"]["kind"] in ("ver", "list") and t["a"]["var"] in ("python_version", "python_full_version") and variant == 0:
+            if t["k"] == "atom" and t["a"]["kind"] in ("ver", "list") and t["a"]["var"] in ("python_version", "python_full_version") and variant in (0, 5):
                 a = t["a"]
                 seen = set()
                 for i, env in enumerate(envs):
@@ -200,6 +206,15 @@ def _eval_chunk(args):
                         fails.append(("C11", f"C11:view({a['kind']},{a['var']},{a['op']}):raises-{type(ex).__name__}", f"{text!r}: {ex!r}", {"text": text}))
                         break
                     truth = bool(st["table"][i])
+                    if inview == truth:
+                        # the statement relates the view to what the atom REALLY evaluates to
+                        try:
+                            e2 = dict(env)
+                            e2.pop("extras", None)
+                            real = bool(dm.evaluate(e2))
+                        except Exception:  # noqa: BLE001 (reported by C03)
+                            real = truth
+                        truth = real
                     if inview != truth:
                         if a["kind"] == "list":
                             items = [rel_text(x) for x in a["items"]]
